@@ -14,7 +14,7 @@ def design_level(ctx):
     q = ctx.quick
     ctx.tlc_must_hold(SUB, "MCAuthority", cfg="MCAuthority_quick.cfg" if q else "MCAuthority_thorough.cfg", workers=4,
                       timeout=600 if q else 3000, label="authority contract + validator cache")
-    guards = ["X_RevokeAlwaysPossible"] if q else ["X_RevokeAlwaysPossible", "X_CacheNeverDropped", "X_TransferNeverMatters"]
+    guards = ["X_ParamIsLimit"] if q else ["X_ParamIsLimit", "X_RevokeAlwaysPossible", "X_CacheNeverDropped", "X_TransferNeverMatters"]
     base = open(os.path.join(ctx.specdir(SUB), "MCAuthority_quick.cfg")).read()
     for g in guards:
         r = ctx.tlc(SUB, "MCAuthority", cfg="guard.cfg", files={"guard.cfg": base.replace("INVARIANT CacheIsRecomputation", "INVARIANT " + g)},
@@ -109,21 +109,32 @@ def validate(ctx, path, timeout=600):
 
 def chains(ctx, runs, blocks):
     """implementation -> model: real chains; WARM vs COLD validator; Trace_Authority.tla on every block."""
-    args = ["-mode", "chain", "-seed", ctx.seed, "-runs", runs, "-blocks", blocks]
-    summ, out = run_driver(ctx, "chain", args)
+    return bind_chain(ctx, "chain", ["-mode", "chain", "-seed", ctx.seed, "-runs", runs, "-blocks", blocks], demo=True)
+
+
+def bignet(ctx, blocks):
+    """The cap of 101 proposers on both sides: 105 endorsed authorities, max-block-proposers 200 and moving, v1 and v2."""
+    return bind_chain(ctx, "bignet", ["-mode", "bignet", "-seed", ctx.seed, "-blocks", blocks], demo=False)
+
+
+def bind_chain(ctx, label, args, demo):
+    summ, out = run_driver(ctx, label, args)
     if summ is None:
         return None
-    how = {"mode": "authority-chain", "driver_args": [str(a) for a in args]}
+    how = {"mode": "authority-" + label, "driver_args": [str(a) for a in args]}
     events = read_ndjson(os.path.join(out, "trace.ndjson"))
-    for d in summ["divergences"][:2]:
-        rp = ctx.save_replay("authority-divergence-seed%d.json" % ctx.seed, {"how": how, "divergences": summ["divergences"]})
-        ctx.report("authority:warm-cold-divergence", "authority chain: the validator with a warm poaCacher and a fresh validator disagree "
-                   "on a block packed by the real packer: " + d, rp)
-        break
+    for d in summ["divergences"][:1]:
+        rp = ctx.save_replay("authority-%s-divergence-seed%d.json" % (label, ctx.seed), {"how": how, "divergences": summ["divergences"]})
+        if "cold=ok" in d and "warm=rejected" in d:
+            ctx.report("authority:warm-cold-divergence", "authority %s: the validator with a warm poaCacher refuses a block of the real "
+                       "packer that a fresh validator accepts: %s" % (label, d), rp)
+        else:
+            ctx.report("authority:packer-validator-disagreement", "authority %s: the real packer and the real validator do not derive "
+                       "the same proposer list / score: %s" % (label, d), rp)
     rs = split_runs(events)
     # binding demonstration (b): one logged field corrupted / one event deleted => rejected
     demo_ok = True
-    if rs and not summ["divergences"]:
+    if demo and rs and not summ["divergences"]:
         es = rs[0]
         ends = [i for i, e in enumerate(es) if e["e"] == "End"]
         begins = [i for i, e in enumerate(es) if e["e"] == "Begin"]
@@ -149,7 +160,7 @@ def chains(ctx, runs, blocks):
     accepted, rejected = 0, 0
     pending = rs
     while pending:
-        p = os.path.join(ctx.tmp("auth-val"), "trace-%d.ndjson" % rejected)
+        p = os.path.join(ctx.tmp("auth-val-" + label), "trace-%d.ndjson" % rejected)
         write_ndjson(p, [e for r_ in pending for e in r_])
         ok, hwm, ln, r = validate(ctx, p)
         if ok:
@@ -174,10 +185,10 @@ def chains(ctx, runs, blocks):
             what = "the real chain does what Authority.tla does not allow"
             if ev["e"] == "End" and (ev.get("warm") != "ok" or ev.get("cold") != "ok"):
                 what = "a valid block was not accepted: warm=%s cold=%s" % (ev.get("warm"), ev.get("cold"))
-        short = {k: v for k, v in ev.items() if k != "proj"}
-        rp = ctx.save_replay("authority-chain-run%s-seed%d.json" % (es[0].get("run"), ctx.seed),
+        short = {k: (v if not isinstance(v, list) or len(v) <= 8 else "%d entries" % len(v)) for k, v in ev.items() if k != "proj"}
+        rp = ctx.save_replay("authority-%s-run%s-seed%d.json" % (label, es[0].get("run"), ctx.seed),
                              {"how": how, "verdict": what, "offending_index_in_run": off, "offending_event": ev, "run_events": es})
-        ctx.report(sig, "authority chain run %s event #%d %s -> %s" % (es[0].get("run"), off, json.dumps(short, sort_keys=True)[:400], what), rp)
+        ctx.report(sig, "authority %s run %s event #%d %s -> %s" % (label, es[0].get("run"), off, json.dumps(short, sort_keys=True)[:400], what), rp)
         rejected += 1
         accepted += badk
         pending = pending[badk + 1:]
@@ -194,15 +205,18 @@ def step(ctx):
     design_level(ctx)
     rep = replay_behaviours(ctx, 20 if q else 400)
     ch = chains(ctx, 3 if q else 30, 40 if q else 80)
+    big = bignet(ctx, 10 if q else 40)
     cov = {}
     if rep:
         cov["replay"] = {k: v for k, v in rep.items() if k != "mismatches"}
         cov["replay"]["mismatches"] = len(rep["mismatches"])
     if ch:
         cov["chain"] = {k: v for k, v in ch.items()}
+    if big:
+        cov["bignet_cap_101"] = {k: v for k, v in big.items()}
     ctx.cov["authority"] = cov
-    ev = (rep["projections_compared"] if rep else 0) + (ch["blocks"] if ch else 0)
+    ev = (rep["projections_compared"] if rep else 0) + (ch["blocks"] if ch else 0) + (big["blocks"] if big else 0)
     dn = (rep["distinct_nontrivial"] if rep else 0) + (ch["distinct_nontrivial"] if ch else 0)
     ctx.log("authority: %d replayed steps compared, %d real blocks (warm/cold/spec), %d distinct non-trivial" %
-            (rep["projections_compared"] if rep else 0, ch["blocks"] if ch else 0, dn))
+            (rep["projections_compared"] if rep else 0, (ch["blocks"] if ch else 0) + (big["blocks"] if big else 0), dn))
     return ev, dn
